@@ -69,13 +69,31 @@ def cond_call(c, role):
     return "%s('%s', %d, {%s})" % (fn, role, c["cid"], kws)
 
 
-def render_contract(c, role, lines, ind):
+# condition functions written with `def` are made by a factory shared by all conditions of the same signature
+SHARED_CODE = True
+
+
+def render_contract(c, role, lines, ind, shared=False):
     """Emit helper definitions into lines; return the decorator argument text."""
     if c["lambda"] and c["kind"] != "corofn":
         cond = "lambda %s: %s" % (cond_params(c), cond_call(c, role)) if c["params"] else "lambda: %s" % cond_call(c, role)
     else:
         prefix = "async def" if c["kind"] == "corofn" else "def"
-        lines.append("%s%s c_%d(%s): return %s" % (ind, prefix, c["cid"], cond_params(c), cond_call(c, role)))
+        if c["kind"] == "plain" and SHARED_CODE and shared:
+            # conditions of one signature come out of one factory, as a helper such as `at_least(bound)` makes them:
+            # distinct contracts whose condition functions share a code object
+            ps = cond_params(c)
+            kws = ", ".join("'%s': %s" % (n, n) for n, _ in c["params"])
+            fac = "k_%s" % "_".join([n + ("D" if d else "") for n, d in c["params"]] or ["none"])
+            head = "def %s(role, cid):" % fac
+            if not any(l.strip() == head for l in lines):
+                lines.append("%s%s" % (ind, head))
+                lines.append("%s    def c(%s): return W.cond(role, cid, {%s})" % (ind, ps, kws))
+                lines.append("%s    c.__name__ = 'c_%%d' %% cid          # the message of a violation names the function" % ind)
+                lines.append("%s    return c" % ind)
+            lines.append("%sc_%d = %s('%s', %d)" % (ind, c["cid"], fac, role, c["cid"]))
+        else:
+            lines.append("%s%s c_%d(%s): return %s" % (ind, prefix, c["cid"], cond_params(c), cond_call(c, role)))
         cond = "c_%d" % c["cid"]
     err = c["error"]
     if err[0] == "none":
@@ -139,9 +157,9 @@ def render_decorators(level, helper_lines, ind, pattern):
     decos = []
     for k, item in applied:
         if k == "r":
-            decos.append("@icontract.require(%s%s)" % (render_contract(item, "pre", helper_lines, ind), ENABLED_SUFFIX))
+            decos.append("@icontract.require(%s%s)" % (render_contract(item, "pre", helper_lines, ind, shared=True), ENABLED_SUFFIX))
         elif k == "e":
-            decos.append("@icontract.ensure(%s%s)" % (render_contract(item, "post", helper_lines, ind), ENABLED_SUFFIX))
+            decos.append("@icontract.ensure(%s%s)" % (render_contract(item, "post", helper_lines, ind, shared=True), ENABLED_SUFFIX))
         else:
             decos.append("@icontract.snapshot(%s%s)" % (render_snapshot(item, helper_lines, ind), ENABLED_SUFFIX))
     return [ind + d for d in reversed(decos)]
